@@ -346,10 +346,52 @@ Section RowShape.
       end.
   Proof. intros l r. reflexivity. Qed.
 
-  Lemma jac_row_Const : forall c, jac_row V (Const c) = None.
-  Proof. intros c. reflexivity. Qed.
+
+  (* the rows of the non-BinaryOp nodes *)
+  Definition flat_row (e : expr) : option (list expr) :=
+    match e with
+    | VSum _ xs => Some (map (fun v => if mem v xs then c1 else c0) V)
+    | LinComb cs (KVar _) es => Some (map (fun v => Const (last_coeff v cs es 0%Q)) V)
+    | Dot (KVar i) ls (KVar j) rs =>
+        if N.eqb i j then
+          Some (map (fun v => if mem v (vec_names ls) then Bin Mul c2 (Var v) else c0) V)
+        else
+          Some (map (fun v => join_add (dot_contribs v ls rs)) V)
+    | VPowSum _ xs k => Some (map (fun v => if mem v xs then vpow_deriv k v else c0) V)
+    | VUnSum _ xs o =>
+        match vunary_deriv o "x" with
+        | Some _ => Some (map (fun v => if mem v xs
+                                        then match vunary_deriv o v with Some d => d | None => c0 end
+                                        else c0) V)
+        | None => None
+        end
+    | MSum true es => Some (map (fun v => Const (inject_Z (Z.of_nat (count_name v es)))) V)
+    | QForm (KVar i) es m =>
+        Some (map (fun v => match index_of v es 0 with
+                            | Some k => LinComb (qsym_row m k (List.length es)) (KVar i) es
+                            | None => c0 end) V)
+    | _ => None
+    end.
+
+  Lemma jac_row_flat : forall e,
+      match e with Bin _ _ _ => True | _ => jac_row V e = flat_row e end.
+  Proof. intros e. destruct e; try exact I; reflexivity. Qed.
 
   Opaque jac_row.
+
+  Lemma jac_row_Const : forall c, jac_row V (Const c) = None.
+  Proof. intros c. exact (jac_row_flat (Const c)). Qed.
+
+  Lemma is_const_inv : forall e, is_const e = true -> exists c, e = Const c.
+  Proof. intros e H. destruct e; try discriminate H. eexists. reflexivity. Qed.
+
+  Lemma jac_row_Add_b : forall l r,
+      jac_row V (Bin Add l r) =
+      if is_const r then jac_row V l else if is_const l then jac_row V r else None.
+  Proof.
+    intros l r. rewrite jac_row_Add.
+    destruct r; try reflexivity; destruct l; reflexivity.
+  Qed.
 
   Lemma jac_row_Mul_c : forall c r,
       jac_row V (Bin Mul (Const c) r) =
@@ -386,16 +428,11 @@ Section RowShape.
     intros o l r row H.
     destruct o.
     - (* Add *)
-      rewrite jac_row_Add in H.
-      destruct (const_dec r) as [[c Hc]|Hr].
-      + subst r. left. exists c. auto.
-      + destruct (const_dec l) as [[c Hc]|Hl].
-        * subst l. right; left. exists c.
-          split; [reflexivity|]. split; [reflexivity|].
-          destruct r; try exact H; exfalso; eapply Hr; reflexivity.
-        * exfalso.
-          destruct r; try (eapply Hr; reflexivity);
-            destruct l; try discriminate H; eapply Hl; reflexivity.
+      rewrite jac_row_Add_b in H.
+      destruct (is_const r) eqn:Hr.
+      + destruct (is_const_inv r Hr) as [c Hc]. subst r. left. exists c. auto.
+      + destruct (is_const l) eqn:Hl; [|discriminate H].
+        destruct (is_const_inv l Hl) as [c Hc]. subst l. right; left. exists c. auto.
     - (* Sub *)
       rewrite jac_row_Sub in H.
       destruct r; try discriminate H.
@@ -413,3 +450,894 @@ Section RowShape.
     - rewrite jac_row_Pow in H. discriminate H.
   Qed.
 End RowShape.
+
+(* ------------------------------------------------------------------ *)
+(** * 1. the per-node rows agree with the general path *)
+
+Ltac flat H :=
+  match type of H with jac_row ?V ?e = _ => rewrite (jac_row_flat V e) in H end.
+
+Section RowSound.
+  Variables ln2c ln10c : Q.
+  Variable V : list string.
+  Variables rho penv : env.
+  Notation ev := (evalR rho penv).
+  Notation g := (grad ln2c ln10c).
+
+  Definition row_ok (e : expr) (row : list expr) : Prop :=
+    map ev row = map (fun v => ev (g v e)) V.
+
+  Lemma map_scale_ev : forall (sc : Q -> expr -> expr) c row' f,
+      (forall t, ev (sc c t) = (Q2R c * ev t)%R) ->
+      map ev row' = map f V ->
+      map ev (map (sc c) row') = map (fun v => (Q2R c * f v)%R) V.
+  Proof.
+    intros sc c row' f Hsc Hrow.
+    rewrite map_map.
+    rewrite <- (map_map f (fun t => (Q2R c * t)%R)).
+    rewrite <- Hrow. rewrite map_map.
+    apply map_ext. intros t. apply Hsc.
+  Qed.
+
+  Lemma jac_row_sound_aux : forall e row,
+      wf e = true -> jac_row V e = Some row -> row_ok e row.
+  Proof.
+    unfold row_ok.
+    induction e as [ q | y | p | o l r IHl IHr | o a IHa | vid xs | cs k es IHes
+                   | kl ls kr rs IHls IHrs | k es IHes | k es IHes | k es m IHes
+                   | vid xs p | vid xs o | es IHes | isvar es IHes | es IHes ]
+                     using expr_ind'; intros row Hwf Hrow;
+      try (flat Hrow; simpl in Hrow; discriminate Hrow).
+    - (* Bin *)
+      simpl in Hwf. apply andb_true_iff in Hwf. destruct Hwf as [Hwl Hwr].
+      destruct (jac_row_Bin_inv V o l r row Hrow)
+        as [[c [Ho [Hr Hl]]] | [[c [Ho [Hl Hr]]] | [[c [row' [Ho [Hl [Hr Hrw]]]]] | [c [row' [Ho [Hr [Hl Hrw]]]]]]]].
+      + (* f +- c *)
+        subst r. rewrite (IHl row Hwl Hl). apply map_ext. intros v.
+        destruct Ho as [Ho|Ho]; subst o.
+        * change (g v (Bin Add l (Const c))) with (s_add (g v l) c0).
+          rewrite s_add_ev, ev_c0. lra.
+        * reflexivity.
+      + (* c + f *)
+        subst o l. rewrite (IHr row Hwr Hr). apply map_ext. intros v.
+        change (g v (Bin Add (Const c) r)) with (s_add c0 (g v r)).
+        rewrite s_add_ev, ev_c0. lra.
+      + (* c * f *)
+        subst o l row.
+        rewrite (map_scale_ev scale_l c row' (fun v => ev (g v r)) (scale_l_ev rho penv c)
+                              (IHr row' Hwr Hr)).
+        apply map_ext. intros v.
+        change (g v (Bin Mul (Const c) r)) with (s_add (s_mul (Const c) (g v r)) (s_mul r c0)).
+        rewrite s_add_ev, !s_mul_ev, ev_c0. simpl. lra.
+      + (* f * c *)
+        subst o r row.
+        rewrite (map_scale_ev scale_r c row' (fun v => ev (g v l)) (scale_r_ev rho penv c)
+                              (IHl row' Hwl Hl)).
+        apply map_ext. intros v.
+        change (g v (Bin Mul l (Const c))) with (s_add (s_mul l c0) (s_mul (Const c) (g v l))).
+        rewrite s_add_ev, !s_mul_ev, ev_c0. simpl. lra.
+    - (* VSum *)
+      flat Hrow. simpl in Hrow. inversion Hrow; subst row.
+      rewrite map_map. apply map_ext. intros v. reflexivity.
+    - (* LinComb *)
+      flat Hrow. destruct k as [i|]; simpl in Hrow; [|discriminate Hrow].
+      inversion Hrow; subst row.
+      rewrite map_map. apply map_ext. intros v.
+      simpl in Hwf. apply andb_true_iff in Hwf. destruct Hwf as [Hwf _].
+      apply andb_true_iff in Hwf. destruct Hwf as [_ Hk].
+      apply andb_true_iff in Hk. destruct Hk as [_ Hnd].
+      rewrite (last_first_coeff v es Hnd cs). reflexivity.
+    - (* Dot *)
+      flat Hrow.
+      destruct kl as [i|]; [|simpl in Hrow; discriminate Hrow].
+      destruct kr as [j|]; [|simpl in Hrow; discriminate Hrow].
+      simpl in Hrow. simpl g.
+      destruct (N.eqb i j).
+      + inversion Hrow; subst row.
+        rewrite map_map. apply map_ext. intros v. reflexivity.
+      + inversion Hrow; subst row.
+        rewrite map_map. apply map_ext. intros v.
+        rewrite join_add_ev, dot_vv_grad_ev, ev_c0. lra.
+    - (* QForm *)
+      flat Hrow. destruct k as [i|]; simpl in Hrow; [|discriminate Hrow].
+      inversion Hrow; subst row.
+      rewrite map_map. apply map_ext. intros v. reflexivity.
+    - (* VPowSum *)
+      flat Hrow. simpl in Hrow. inversion Hrow; subst row.
+      rewrite map_map. apply map_ext. intros v. reflexivity.
+    - (* VUnSum *)
+      flat Hrow. simpl in Hrow.
+      destruct (vunary_deriv o "x"); [|discriminate Hrow].
+      inversion Hrow; subst row.
+      rewrite map_map. apply map_ext. intros v. reflexivity.
+    - (* MSum *)
+      flat Hrow. destruct isvar; simpl in Hrow; [|discriminate Hrow].
+      inversion Hrow; subst row.
+      rewrite map_map. apply map_ext. intros v.
+      simpl in Hwf. apply andb_true_iff in Hwf. destruct Hwf as [Hv _].
+      simpl g. rewrite sum_grad_ev, ev_c0.
+      rewrite (msum_count_ev ln2c ln10c rho penv v es Hv).
+      simpl. rewrite Q2R_of_nat. lra.
+  Qed.
+End RowSound.
+
+(* the statement without [dot_same_ok] (not needed: see the header) *)
+Theorem jac_row_sound_gen : forall ln2c ln10c V e row,
+    wf e = true -> jac_row V e = Some row ->
+    forall rho penv,
+      map (evalR rho penv) row =
+      map (fun v => evalR rho penv (grad ln2c ln10c v e)) V.
+Proof.
+  intros ln2c ln10c V e row Hwf Hrow rho penv.
+  exact (jac_row_sound_aux ln2c ln10c V rho penv e row Hwf Hrow).
+Qed.
+
+Theorem jac_row_sound : forall ln2c ln10c V e row,
+    wf e = true -> dot_same_ok e = true -> jac_row V e = Some row ->
+    forall rho penv,
+      map (evalR rho penv) row =
+      map (fun v => evalR rho penv (grad ln2c ln10c v e)) V.
+Proof.
+  intros ln2c ln10c V e row Hwf _ Hrow. apply jac_row_sound_gen; assumption.
+Qed.
+
+(* ------------------------------------------------------------------ *)
+(** * 2. compute_jacobian: every row, shortcut or not, has the general-path values *)
+
+Theorem compute_jacobian_sound_gen : forall ln2c ln10c es V rho penv,
+    Forall (fun e => wf e = true) es ->
+    map (map (evalR rho penv)) (compute_jacobian ln2c ln10c es V) =
+    map (fun e => map (fun v => evalR rho penv (grad ln2c ln10c v e)) V) es.
+Proof.
+  intros ln2c ln10c es V rho penv Hwf.
+  unfold compute_jacobian. rewrite map_map. apply map_ext_in. intros e He.
+  rewrite Forall_forall in Hwf.
+  destruct (jac_row V e) as [row|] eqn:Erow.
+  - apply (jac_row_sound_gen ln2c ln10c V e row (Hwf e He) Erow).
+  - rewrite map_map. reflexivity.
+Qed.
+
+Theorem compute_jacobian_sound : forall ln2c ln10c es V rho penv,
+    Forall (fun e => wf e = true) es ->
+    Forall (fun e => dot_same_ok e = true) es ->
+    map (map (evalR rho penv)) (compute_jacobian ln2c ln10c es V) =
+    map (fun e => map (fun v => evalR rho penv (grad ln2c ln10c v e)) V) es.
+Proof.
+  intros ln2c ln10c es V rho penv Hwf _. apply compute_jacobian_sound_gen. exact Hwf.
+Qed.
+
+(* ------------------------------------------------------------------ *)
+(** * Row entries are well-formed trees over the listed variables *)
+
+Lemma scale_l_wf : forall c t, wf t = true -> wf (scale_l c t) = true.
+Proof. intros c t H. destruct t; simpl in *; auto. Qed.
+
+Lemma scale_r_wf : forall c t, wf t = true -> wf (scale_r c t) = true.
+Proof. intros c t H. destruct t; simpl in *; rewrite ?H; auto. Qed.
+
+Lemma scale_l_vars : forall c t, vars (scale_l c t) = vars t.
+Proof. intros c t. destruct t; reflexivity. Qed.
+
+Lemma scale_r_vars : forall c t, vars (scale_r c t) = vars t.
+Proof. intros c t. destruct t; simpl; rewrite ?app_nil_r; reflexivity. Qed.
+
+Lemma fold_add_wf : forall r t,
+    wf t = true -> Forall (fun u => wf u = true) r ->
+    wf (fold_left (fun acc u => Bin Add acc u) r t) = true.
+Proof.
+  induction r as [|a r IH]; intros t Ht Hr; simpl.
+  - exact Ht.
+  - inversion Hr; subst. apply IH; [|assumption]. simpl. rewrite Ht. assumption.
+Qed.
+
+Lemma join_add_wf : forall ts,
+    Forall (fun u => wf u = true) ts -> wf (join_add ts) = true.
+Proof.
+  intros [|t r] H; simpl.
+  - reflexivity.
+  - inversion H; subst. apply fold_add_wf; assumption.
+Qed.
+
+Lemma fold_add_vars : forall W r t,
+    incl (vars t) W -> Forall (fun u => incl (vars u) W) r ->
+    incl (vars (fold_left (fun acc u => Bin Add acc u) r t)) W.
+Proof.
+  intros W. induction r as [|a r IH]; intros t Ht Hr; simpl.
+  - exact Ht.
+  - inversion Hr; subst. apply IH; [|assumption]. simpl. apply incl_app; assumption.
+Qed.
+
+Lemma join_add_vars : forall W ts,
+    Forall (fun u => incl (vars u) W) ts -> incl (vars (join_add ts)) W.
+Proof.
+  intros W [|t r] H; simpl.
+  - intros y Hy. destruct Hy.
+  - inversion H; subst. apply fold_add_vars; assumption.
+Qed.
+
+Lemma dot_contribs_Forall : forall (P : expr -> Prop) v ls rs,
+    Forall P ls -> Forall P rs -> Forall P (dot_contribs v ls rs).
+Proof.
+  intros P v. induction ls as [|l ls IH]; intros rs Hl Hr.
+  - constructor.
+  - destruct rs as [|r rs]; [constructor|].
+    inversion Hl; subst. inversion Hr; subst. simpl.
+    apply Forall_app. split; [|apply Forall_app; split].
+    + destruct l; try constructor. destruct (String.eqb x v); repeat constructor; assumption.
+    + destruct r; try constructor. destruct (String.eqb x v); repeat constructor; assumption.
+    + apply IH; assumption.
+Qed.
+
+Lemma flat_map_vars_Forall : forall W es,
+    incl (flat_map vars es) W -> Forall (fun u => incl (vars u) W) es.
+Proof.
+  intros W. induction es as [|a es IH]; intros H.
+  - constructor.
+  - simpl in H. constructor.
+    + eapply incl_app_l. exact H.
+    + apply IH. eapply incl_app_r. exact H.
+Qed.
+
+Lemma vpow_deriv_wf : forall k v, wf (vpow_deriv k v) = true.
+Proof.
+  intros k v. unfold vpow_deriv.
+  destruct (Qeq_bool k 1); [reflexivity|]. destruct (Qeq_bool k 2); reflexivity.
+Qed.
+
+Lemma vpow_deriv_vars : forall k v, incl (vars (vpow_deriv k v)) [v].
+Proof.
+  intros k v. unfold vpow_deriv.
+  destruct (Qeq_bool k 1); [intros y Hy; destruct Hy|].
+  destruct (Qeq_bool k 2); intros y Hy; simpl in Hy; exact Hy.
+Qed.
+
+Lemma vunary_deriv_wf : forall o v d, vunary_deriv o v = Some d -> wf d = true.
+Proof.
+  intros o v d H. destruct o; simpl in H; inversion H; reflexivity.
+Qed.
+
+Lemma vunary_deriv_vars : forall o v d, vunary_deriv o v = Some d -> incl (vars d) [v].
+Proof.
+  intros o v d H.
+  destruct o; simpl in H; inversion H; subst d; intros y Hy; simpl in Hy;
+    intuition (subst; simpl; auto).
+Qed.
+
+Section RowEntries.
+  Variable V : list string.
+
+  Lemma jac_row_wf : forall e row,
+      wf e = true -> jac_row V e = Some row -> Forall (fun t => wf t = true) row.
+  Proof.
+    induction e as [ q | y | p | o l r IHl IHr | o a IHa | vid xs | cs k es IHes
+                   | kl ls kr rs IHls IHrs | k es IHes | k es IHes | k es m IHes
+                   | vid xs p | vid xs o | es IHes | isvar es IHes | es IHes ]
+                     using expr_ind'; intros row Hwf Hrow;
+      try (flat Hrow; simpl in Hrow; discriminate Hrow).
+    - (* Bin *)
+      simpl in Hwf. apply andb_true_iff in Hwf. destruct Hwf as [Hwl Hwr].
+      destruct (jac_row_Bin_inv V o l r row Hrow)
+        as [[c [Ho [Hr Hl]]] | [[c [Ho [Hl Hr]]] | [[c [row' [Ho [Hl [Hr Hrw]]]]] | [c [row' [Ho [Hr [Hl Hrw]]]]]]]].
+      + apply IHl; assumption.
+      + apply IHr; assumption.
+      + subst row. apply Forall_map_intro. intros t Ht.
+        apply scale_l_wf. pose proof (IHr row' Hwr Hr) as Hf.
+        rewrite Forall_forall in Hf. apply Hf. exact Ht.
+      + subst row. apply Forall_map_intro. intros t Ht.
+        apply scale_r_wf. pose proof (IHl row' Hwl Hl) as Hf.
+        rewrite Forall_forall in Hf. apply Hf. exact Ht.
+    - (* VSum *)
+      flat Hrow. simpl in Hrow. inversion Hrow; subst row.
+      apply Forall_map_intro. intros v _. destruct (mem v xs); reflexivity.
+    - (* LinComb *)
+      flat Hrow. destruct k as [i|]; simpl in Hrow; [|discriminate Hrow].
+      inversion Hrow; subst row. apply Forall_map_intro. intros v _. reflexivity.
+    - (* Dot *)
+      flat Hrow.
+      destruct kl as [i|]; [|simpl in Hrow; discriminate Hrow].
+      destruct kr as [j|]; [|simpl in Hrow; discriminate Hrow].
+      simpl in Hrow.
+      simpl in Hwf. apply andb_true_iff in Hwf. destruct Hwf as [Hwf Hwrs].
+      apply andb_true_iff in Hwf. destruct Hwf as [Hwf Hwls].
+      destruct (N.eqb i j); inversion Hrow; subst row; apply Forall_map_intro; intros v _.
+      + destruct (mem v (vec_names ls)); reflexivity.
+      + apply join_add_wf. apply dot_contribs_Forall; apply forallb_Forall'; assumption.
+    - (* QForm *)
+      flat Hrow. destruct k as [i|]; simpl in Hrow; [|discriminate Hrow].
+      inversion Hrow; subst row. apply Forall_map_intro. intros v _.
+      destruct (index_of v es 0) as [j|]; [|reflexivity].
+      simpl in Hwf. apply andb_true_iff in Hwf. destruct Hwf as [Hwf _].
+      apply andb_true_iff in Hwf. destruct Hwf as [Hwf _].
+      apply andb_true_iff in Hwf. destruct Hwf as [Hk Hes].
+      simpl. unfold qsym_row. rewrite map_length, seq_length, Nat.eqb_refl.
+      simpl in Hk. rewrite Hk, Hes. reflexivity.
+    - (* VPowSum *)
+      flat Hrow. simpl in Hrow. inversion Hrow; subst row.
+      apply Forall_map_intro. intros v _.
+      destruct (mem v xs); [apply vpow_deriv_wf | reflexivity].
+    - (* VUnSum *)
+      flat Hrow. simpl in Hrow.
+      destruct (vunary_deriv o "x"); [|discriminate Hrow].
+      inversion Hrow; subst row. apply Forall_map_intro. intros v _.
+      destruct (mem v xs); [|reflexivity].
+      destruct (vunary_deriv o v) as [d|] eqn:Ed; [|reflexivity].
+      eapply vunary_deriv_wf. exact Ed.
+    - (* MSum *)
+      flat Hrow. destruct isvar; simpl in Hrow; [|discriminate Hrow].
+      inversion Hrow; subst row. apply Forall_map_intro. intros v _. reflexivity.
+  Qed.
+
+  Lemma incl_single : forall (v : string), In v V -> incl [v] V.
+  Proof. intros v Hv y Hy. destruct Hy as [Hy|[]]. subst. exact Hv. Qed.
+
+  Lemma jac_row_vars : forall e row,
+      incl (vars e) V -> jac_row V e = Some row -> Forall (fun t => incl (vars t) V) row.
+  Proof.
+    induction e as [ q | y | p | o l r IHl IHr | o a IHa | vid xs | cs k es IHes
+                   | kl ls kr rs IHls IHrs | k es IHes | k es IHes | k es m IHes
+                   | vid xs p | vid xs o | es IHes | isvar es IHes | es IHes ]
+                     using expr_ind'; intros row Hinc Hrow;
+      try (flat Hrow; simpl in Hrow; discriminate Hrow).
+    - (* Bin *)
+      simpl in Hinc.
+      assert (Hil : incl (vars l) V) by (eapply incl_app_l; exact Hinc).
+      assert (Hir : incl (vars r) V) by (eapply incl_app_r; exact Hinc).
+      destruct (jac_row_Bin_inv V o l r row Hrow)
+        as [[c [Ho [Hr Hl]]] | [[c [Ho [Hl Hr]]] | [[c [row' [Ho [Hl [Hr Hrw]]]]] | [c [row' [Ho [Hr [Hl Hrw]]]]]]]].
+      + apply IHl; assumption.
+      + apply IHr; assumption.
+      + subst row. apply Forall_map_intro. intros t Ht.
+        rewrite scale_l_vars. pose proof (IHr row' Hir Hr) as Hf.
+        rewrite Forall_forall in Hf. apply Hf. exact Ht.
+      + subst row. apply Forall_map_intro. intros t Ht.
+        rewrite scale_r_vars. pose proof (IHl row' Hil Hl) as Hf.
+        rewrite Forall_forall in Hf. apply Hf. exact Ht.
+    - (* VSum *)
+      flat Hrow. simpl in Hrow. inversion Hrow; subst row.
+      apply Forall_map_intro. intros v _.
+      destruct (mem v xs); intros y Hy; destruct Hy.
+    - (* LinComb *)
+      flat Hrow. destruct k as [i|]; simpl in Hrow; [|discriminate Hrow].
+      inversion Hrow; subst row. apply Forall_map_intro. intros v _ y Hy. destruct Hy.
+    - (* Dot *)
+      flat Hrow.
+      destruct kl as [i|]; [|simpl in Hrow; discriminate Hrow].
+      destruct kr as [j|]; [|simpl in Hrow; discriminate Hrow].
+      simpl in Hrow. simpl in Hinc.
+      destruct (N.eqb i j); inversion Hrow; subst row; apply Forall_map_intro; intros v Hv.
+      + destruct (mem v (vec_names ls)).
+        * simpl. apply incl_single. exact Hv.
+        * intros y Hy. destruct Hy.
+      + apply join_add_vars. apply dot_contribs_Forall; apply flat_map_vars_Forall.
+        * eapply incl_app_l. exact Hinc.
+        * eapply incl_app_r. exact Hinc.
+    - (* QForm *)
+      flat Hrow. destruct k as [i|]; simpl in Hrow; [|discriminate Hrow].
+      inversion Hrow; subst row. apply Forall_map_intro. intros v _.
+      destruct (index_of v es 0) as [j|].
+      + exact Hinc.
+      + intros y Hy. destruct Hy.
+    - (* VPowSum *)
+      flat Hrow. simpl in Hrow. inversion Hrow; subst row.
+      apply Forall_map_intro. intros v Hv.
+      destruct (mem v xs).
+      + eapply incl_tran; [apply vpow_deriv_vars | apply incl_single; exact Hv].
+      + intros y Hy. destruct Hy.
+    - (* VUnSum *)
+      flat Hrow. simpl in Hrow.
+      destruct (vunary_deriv o "x"); [|discriminate Hrow].
+      inversion Hrow; subst row. apply Forall_map_intro. intros v Hv.
+      destruct (mem v xs); [|intros y Hy; destruct Hy].
+      destruct (vunary_deriv o v) as [d|] eqn:Ed; [|intros y Hy; destruct Hy].
+      eapply incl_tran; [eapply vunary_deriv_vars; exact Ed | apply incl_single; exact Hv].
+    - (* MSum *)
+      flat Hrow. destruct isvar; simpl in Hrow; [|discriminate Hrow].
+      inversion Hrow; subst row. apply Forall_map_intro. intros v _ y Hy. destruct Hy.
+  Qed.
+End RowEntries.
+
+(* ------------------------------------------------------------------ *)
+(** * 3. the paths of compile_jacobian *)
+
+(* the point read back through the variable list is the point *)
+Lemma map_env_of_self : forall V (x : list R),
+    NoDup V -> List.length x = List.length V -> map (env_of V x) V = x.
+Proof.
+  induction V as [|v V IH]; intros x Hnd Hlen.
+  - destruct x; [reflexivity | discriminate Hlen].
+  - destruct x as [|t x]; [discriminate Hlen|].
+    inversion Hnd as [|v' V' Hnin Hnd']; subst.
+    simpl. rewrite String.eqb_refl. f_equal.
+    transitivity (map (env_of V x) V);
+      [|apply IH; [exact Hnd' | simpl in Hlen; lia]].
+    apply map_ext_in. intros y Hy.
+    destruct (String.eqb_spec y v) as [Heq|Hne]; [|reflexivity].
+    subst y. contradiction.
+Qed.
+
+(* everything compile_jacobian does after computing the symbolic Jacobian *)
+Definition general_path (V : list string) (jac : list (list expr)) : option (list (list clo)) :=
+  all_some (map (fun row => all_some (map (build V) row)) jac).
+
+Definition select_path (V : list string) (jac : list (list expr)) : jpath :=
+  match const_matrix jac with
+  | Some m => JConst m
+  | None =>
+      let scaled := match jac with
+                    | [row] => if Nat.eqb (List.length row) (List.length V)
+                               then scaled_pattern row V None else None
+                    | _ => None end in
+      match scaled with
+      | Some c => JScaled c
+      | None => match general_path V jac with
+                | Some m => JGeneral m
+                | None => JError
+                end
+      end
+  end.
+
+Lemma compile_jacobian_select : forall ln2c ln10c es V,
+    not_vector_path es = true ->
+    compile_jacobian ln2c ln10c es V = select_path V (compute_jacobian ln2c ln10c es V).
+Proof.
+  intros ln2c ln10c es V Hnv.
+  unfold compile_jacobian, select_path, general_path.
+  set (jac := compute_jacobian ln2c ln10c es V). clearbody jac.
+  destruct es as [|e [|e' es']]; try reflexivity;
+    destruct e; try reflexivity; discriminate Hnv.
+Qed.
+
+Section Paths.
+  Variable V : list string.
+  Variable x : list R.
+  Variable penv : string -> R.
+  Notation rho := (env_of V x).
+  Notation ev := (evalR (env_of V x) penv).
+
+  (* JConst: every entry is a literal *)
+  Lemma const_row_ev : forall row qs,
+      all_some (map (fun e => match e with Const q => Some q | _ => None end) row) = Some qs ->
+      map ev row = map Q2R qs.
+  Proof.
+    intros row qs H. apply all_some_map_inv in H.
+    apply Forall2_map_eq.
+    eapply Forall2_impl_l with (P := fun _ => True); [| apply Forall_forall; intros; exact I | exact H].
+    intros a b _ Hab. destruct a; try discriminate Hab. inversion Hab. reflexivity.
+  Qed.
+
+  Lemma const_matrix_ev : forall jac m,
+      const_matrix jac = Some m -> map (map ev) jac = map (map Q2R) m.
+  Proof.
+    intros jac m H. unfold const_matrix in H. apply all_some_map_inv in H.
+    apply Forall2_map_eq.
+    eapply Forall2_impl_l with (P := fun _ => True); [| apply Forall_forall; intros; exact I | exact H].
+    intros a b _ Hab. apply const_row_ev. exact Hab.
+  Qed.
+
+  (* JScaled: entry j is c * Var V_j *)
+  Lemma scaled_entry_ev : forall e v c,
+      scaled_entry e v = Some c -> ev e = (Q2R c * rho v)%R.
+  Proof.
+    intros e v c H.
+    destruct e as [ | | | o l r | | | | | | | | | | | | ]; try discriminate H.
+    destruct o; try discriminate H.
+    destruct l as [cl|xl| | | | | | | | | | | | | | ]; try discriminate H.
+    - destruct r as [|xr| | | | | | | | | | | | | | ]; try discriminate H.
+      simpl in H. destruct (String.eqb_spec xr v) as [Heq|Hne]; [|discriminate H].
+      inversion H; subst. reflexivity.
+    - destruct r as [cr| | | | | | | | | | | | | | | ]; try discriminate H.
+      simpl in H. destruct (String.eqb_spec xl v) as [Heq|Hne]; [|discriminate H].
+      inversion H; subst. simpl. lra.
+  Qed.
+
+  Lemma scaled_pattern_ev : forall row W s c,
+      scaled_pattern row W s = Some c ->
+      (forall s', s = Some s' -> Qeq s' c) /\
+      map ev row = map (fun v => (Q2R c * rho v)%R) W.
+  Proof.
+    induction row as [|e row IH]; intros W s c H.
+    - destruct W as [|w W]; [|discriminate H]. simpl in H. subst s.
+      split; [|reflexivity]. intros s' Hs'. inversion Hs'. apply Qeq_refl.
+    - destruct W as [|w W]; [discriminate H|]. simpl in H.
+      destruct (scaled_entry e w) as [ce|] eqn:Ee; [|discriminate H].
+      destruct s as [s0|].
+      + destruct (Qeq_bool s0 ce) eqn:Eq; [|discriminate H].
+        apply Qeq_bool_iff in Eq.
+        destruct (IH W (Some s0) c H) as [Hs Hmap].
+        pose proof (Hs s0 eq_refl) as Hs0.
+        split.
+        * intros s' Hs'. inversion Hs'; subst. exact Hs0.
+        * simpl. rewrite Hmap. f_equal.
+          rewrite (scaled_entry_ev e w ce Ee).
+          rewrite (Qeq_eqR ce c); [reflexivity|].
+          eapply Qeq_trans; [apply Qeq_sym; exact Eq | exact Hs0].
+      + destruct (IH W (Some ce) c H) as [Hs Hmap].
+        pose proof (Hs ce eq_refl) as Hce.
+        split.
+        * intros s' Hs'. discriminate Hs'.
+        * simpl. rewrite Hmap. f_equal.
+          rewrite (scaled_entry_ev e w ce Ee).
+          rewrite (Qeq_eqR ce c Hce). reflexivity.
+  Qed.
+
+  Lemma scaled_row_ev : forall row c,
+      NoDup V -> List.length x = List.length V ->
+      scaled_pattern row V None = Some c ->
+      map ev row = map (fun t => (Q2R c * t)%R) x.
+  Proof.
+    intros row c Hnd Hlen H.
+    destruct (scaled_pattern_ev row V None c H) as [_ Hmap].
+    rewrite Hmap.
+    transitivity (map (fun t => (Q2R c * t)%R) (map (env_of V x) V)).
+    - rewrite map_map. reflexivity.
+    - rewrite (map_env_of_self V x Hnd Hlen). reflexivity.
+  Qed.
+
+  (* JGeneral: entrywise compilation *)
+  Lemma build_row_ev : forall row cs,
+      NoDup V -> Forall (fun t => wf t = true) row ->
+      all_some (map (build V) row) = Some cs ->
+      map (Compile.run x penv) cs = map ev row.
+  Proof.
+    intros row cs Hnd Hwf H. apply all_some_map_inv in H.
+    symmetry. apply Forall2_map_eq.
+    eapply Forall2_impl_l; [| exact Hwf | exact H].
+    intros t c Ht Hb. simpl in Ht. symmetry.
+    apply build_correct_gen; [apply wf_cwf; exact Ht | exact Hnd | exact Hb].
+  Qed.
+
+  Lemma general_path_ev : forall jac m,
+      NoDup V -> Forall (Forall (fun t => wf t = true)) jac ->
+      general_path V jac = Some m ->
+      map (map (Compile.run x penv)) m = map (map ev) jac.
+  Proof.
+    intros jac m Hnd Hwf H. unfold general_path in H. apply all_some_map_inv in H.
+    symmetry. apply Forall2_map_eq.
+    eapply Forall2_impl_l; [| exact Hwf | exact H].
+    intros row cs Hrow Hb. simpl in Hrow. symmetry.
+    apply build_row_ev; assumption.
+  Qed.
+
+  Lemma general_path_total : forall jac,
+      Forall (Forall (fun t => incl (vars t) V)) jac ->
+      exists m, general_path V jac = Some m.
+  Proof.
+    intros jac Hv. unfold general_path. apply all_some_map_total.
+    eapply Forall_impl; [|exact Hv].
+    intros row Hrow. simpl in Hrow. apply all_some_map_total.
+    eapply Forall_impl; [|exact Hrow].
+    intros t Ht. simpl in Ht. apply build_total_gen. exact Ht.
+  Qed.
+
+  (* whichever path is selected, running it gives the values of the symbolic Jacobian *)
+  Lemma select_path_sound : forall pow_tbl un_tbl jac,
+      NoDup V -> List.length x = List.length V ->
+      Forall (Forall (fun t => wf t = true)) jac ->
+      Forall (Forall (fun t => incl (vars t) V)) jac ->
+      run_jac x penv pow_tbl un_tbl (select_path V jac) = Some (map (map ev) jac).
+  Proof.
+    intros pow_tbl un_tbl jac Hnd Hlen Hwf Hv. unfold select_path.
+    destruct (const_matrix jac) as [m|] eqn:Ec.
+    - simpl. rewrite (const_matrix_ev jac m Ec). reflexivity.
+    - destruct (match jac with
+                | [row] => if Nat.eqb (List.length row) (List.length V)
+                           then scaled_pattern row V None else None
+                | _ => None end) as [c|] eqn:Es.
+      + destruct jac as [|row [|row2 jac']]; try discriminate Es.
+        destruct (Nat.eqb (List.length row) (List.length V)); [|discriminate Es].
+        simpl. rewrite (scaled_row_ev row c Hnd Hlen Es). reflexivity.
+      + destruct (general_path_total jac Hv) as [m Hm]. rewrite Hm.
+        simpl. rewrite (general_path_ev jac m Hnd Hwf Hm). reflexivity.
+  Qed.
+End Paths.
+
+Section CompileJacSound.
+  Variables ln2c ln10c : Q.
+  Variable es : list expr.
+  Variable V : list string.
+  Variable x : list R.
+  Variable penv : string -> R.
+  Variables pow_tbl un_tbl : list centry.
+
+  Hypothesis Hwf : Forall (fun e => wf e = true) es.
+  Hypothesis HV : NoDup V.
+  Hypothesis Hlen : List.length x = List.length V.
+  Hypothesis Hvars : forall e, In e es -> incl (vars e) V.
+  (* provided by AutodiffProofs (grad_wf) / by the syntactic shape of grad *)
+  Hypothesis grad_wf_ok :
+    forall e v, In e es -> In v V -> wf (grad ln2c ln10c v e) = true.
+  Hypothesis grad_vars_ok :
+    forall e v, In e es -> In v V -> incl (vars (grad ln2c ln10c v e)) V.
+
+  Lemma compute_jacobian_wf :
+    Forall (Forall (fun t => wf t = true)) (compute_jacobian ln2c ln10c es V).
+  Proof.
+    unfold compute_jacobian. apply Forall_map_intro. intros e He.
+    rewrite Forall_forall in Hwf.
+    destruct (jac_row V e) as [row|] eqn:Erow.
+    - eapply jac_row_wf; [apply Hwf; exact He | exact Erow].
+    - apply Forall_map_intro. intros v Hv. apply grad_wf_ok; assumption.
+  Qed.
+
+  Lemma compute_jacobian_vars :
+    Forall (Forall (fun t => incl (vars t) V)) (compute_jacobian ln2c ln10c es V).
+  Proof.
+    unfold compute_jacobian. apply Forall_map_intro. intros e He.
+    destruct (jac_row V e) as [row|] eqn:Erow.
+    - eapply jac_row_vars; [apply Hvars; exact He | exact Erow].
+    - apply Forall_map_intro. intros v Hv. apply grad_vars_ok; assumption.
+  Qed.
+
+  Lemma compile_jacobian_sound_sec :
+    not_vector_path es = true ->
+    exists M,
+      run_jac x penv pow_tbl un_tbl (compile_jacobian ln2c ln10c es V) = Some M /\
+      M = map (fun e => map (fun v => evalR (env_of V x) penv (grad ln2c ln10c v e)) V) es.
+  Proof.
+    intros Hnv. rewrite (compile_jacobian_select ln2c ln10c es V Hnv).
+    eexists. split.
+    - apply select_path_sound; try assumption.
+      + apply compute_jacobian_wf.
+      + apply compute_jacobian_vars.
+    - apply compute_jacobian_sound_gen. exact Hwf.
+  Qed.
+
+  (* 4. whichever of JConst / JScaled / JGeneral is selected, the matrix is the
+     one the general path (entrywise compilation, of the symbolic Jacobian with
+     row shortcuts or of the plain gradients) returns *)
+  Lemma compile_paths_agree_sec :
+    not_vector_path es = true ->
+    (exists m,
+        general_path V (compute_jacobian ln2c ln10c es V) = Some m /\
+        run_jac x penv pow_tbl un_tbl (compile_jacobian ln2c ln10c es V) =
+        run_jac x penv pow_tbl un_tbl (JGeneral m)) /\
+    (exists m',
+        general_path V (map (fun e => map (fun v => grad ln2c ln10c v e) V) es) = Some m' /\
+        run_jac x penv pow_tbl un_tbl (compile_jacobian ln2c ln10c es V) =
+        run_jac x penv pow_tbl un_tbl (JGeneral m')).
+  Proof.
+    intros Hnv.
+    destruct (compile_jacobian_sound_sec Hnv) as [M [HM HMeq]].
+    split.
+    - destruct (general_path_total V _ compute_jacobian_vars) as [m Hm].
+      exists m. split; [exact Hm|].
+      rewrite HM. simpl.
+      rewrite (general_path_ev V x penv _ m HV compute_jacobian_wf Hm).
+      rewrite HMeq. rewrite compute_jacobian_sound_gen by exact Hwf. reflexivity.
+    - assert (Hv' : Forall (Forall (fun t => incl (vars t) V))
+                           (map (fun e => map (fun v => grad ln2c ln10c v e) V) es)).
+      { apply Forall_map_intro. intros e He. apply Forall_map_intro. intros v Hv.
+        apply grad_vars_ok; assumption. }
+      assert (Hw' : Forall (Forall (fun t => wf t = true))
+                           (map (fun e => map (fun v => grad ln2c ln10c v e) V) es)).
+      { apply Forall_map_intro. intros e He. apply Forall_map_intro. intros v Hv.
+        apply grad_wf_ok; assumption. }
+      destruct (general_path_total V _ Hv') as [m' Hm'].
+      exists m'. split; [exact Hm'|].
+      rewrite HM. simpl.
+      rewrite (general_path_ev V x penv _ m' HV Hw' Hm').
+      rewrite HMeq. rewrite map_map. f_equal.
+      apply map_ext. intros e. rewrite map_map. reflexivity.
+  Qed.
+End CompileJacSound.
+
+Theorem compile_jacobian_sound : forall ln2c ln10c es V x penv pow_tbl un_tbl,
+    Forall (fun e => wf e = true) es ->
+    Forall (fun e => dot_same_ok e = true) es ->
+    NoDup V ->
+    List.length x = List.length V ->
+    (forall e, In e es -> incl (vars e) V) ->
+    (forall e v, In e es -> In v V -> wf (grad ln2c ln10c v e) = true) ->
+    (forall e v, In e es -> In v V -> incl (vars (grad ln2c ln10c v e)) V) ->
+    not_vector_path es = true ->
+    exists M,
+      run_jac x penv pow_tbl un_tbl (compile_jacobian ln2c ln10c es V) = Some M /\
+      M = map (fun e => map (fun v => evalR (env_of V x) penv (grad ln2c ln10c v e)) V) es.
+Proof.
+  intros ln2c ln10c es V x penv pow_tbl un_tbl Hwf _ HV Hlen Hvars Hgw Hgv Hnv.
+  apply compile_jacobian_sound_sec; assumption.
+Qed.
+
+Theorem compile_paths_agree : forall ln2c ln10c es V x penv pow_tbl un_tbl,
+    Forall (fun e => wf e = true) es ->
+    Forall (fun e => dot_same_ok e = true) es ->
+    NoDup V ->
+    List.length x = List.length V ->
+    (forall e, In e es -> incl (vars e) V) ->
+    (forall e v, In e es -> In v V -> wf (grad ln2c ln10c v e) = true) ->
+    (forall e v, In e es -> In v V -> incl (vars (grad ln2c ln10c v e)) V) ->
+    not_vector_path es = true ->
+    (exists m,
+        general_path V (compute_jacobian ln2c ln10c es V) = Some m /\
+        run_jac x penv pow_tbl un_tbl (compile_jacobian ln2c ln10c es V) =
+        run_jac x penv pow_tbl un_tbl (JGeneral m)) /\
+    (exists m',
+        general_path V (map (fun e => map (fun v => grad ln2c ln10c v e) V) es) = Some m' /\
+        run_jac x penv pow_tbl un_tbl (compile_jacobian ln2c ln10c es V) =
+        run_jac x penv pow_tbl un_tbl (JGeneral m')).
+Proof.
+  intros ln2c ln10c es V x penv pow_tbl un_tbl Hwf _ HV Hlen Hvars Hgw Hgv Hnv.
+  apply compile_paths_agree_sec; assumption.
+Qed.
+
+(* ------------------------------------------------------------------ *)
+(** * compile_gradient: the general path *)
+
+Lemma fold_rec_grad : forall ln2c ln10c v e,
+    fold_rec expr (grad ln2c ln10c v) binary_grad (unary_grad ln2c ln10c) e =
+    grad ln2c ln10c v e.
+Proof.
+  intros ln2c ln10c v.
+  induction e as [ q | y | p | o l IHl r IHr | o a IHa | vid xs | cs k es
+                 | kl dls kr drs | k es | k es | k es m | vid xs p | vid xs o
+                 | es | isvar es | es ]; try reflexivity.
+  - simpl. rewrite IHl, IHr. reflexivity.
+  - simpl. rewrite IHa. reflexivity.
+Qed.
+
+(* the depth switch of gradient() is invisible: the explicit-stack traversal
+   returns the tree the recursion returns, whatever the threshold *)
+Theorem gradient_eq_grad : forall ln2c ln10c v th e,
+    gradient ln2c ln10c v th e = grad ln2c ln10c v e.
+Proof.
+  intros ln2c ln10c v th e.
+  assert (Hit : grad_iter ln2c ln10c v e = Some (grad ln2c ln10c v e)).
+  { unfold grad_iter. rewrite fold_iter_correct, fold_rec_grad. reflexivity. }
+  unfold gradient.
+  destruct e; try reflexivity; rewrite Hit;
+    match goal with |- (if ?b then _ else _) = _ => destruct b; reflexivity end.
+Qed.
+
+Theorem compile_gradient_sound : forall ln2c ln10c e V x penv pow_tbl un_tbl,
+    NoDup V ->
+    List.length x = List.length V ->
+    (forall v, In v V -> wf (grad ln2c ln10c v e) = true) ->
+    (forall v, In v V -> incl (vars (grad ln2c ln10c v e)) V) ->
+    not_vector_path [e] = true ->
+    exists row,
+      compile_gradient ln2c ln10c e V = JGeneral [row] /\
+      run_jac x penv pow_tbl un_tbl (compile_gradient ln2c ln10c e V) =
+      Some [map (fun v => evalR (env_of V x) penv (gradient ln2c ln10c v 400 e)) V] /\
+      run_jac x penv pow_tbl un_tbl (compile_gradient ln2c ln10c e V) =
+      Some [map (fun v => evalR (env_of V x) penv (grad ln2c ln10c v e)) V].
+Proof.
+  intros ln2c ln10c e V x penv pow_tbl un_tbl HV Hlen Hgw Hgv Hnv.
+  assert (Hcg : compile_gradient ln2c ln10c e V =
+                match all_some (map (build V) (map (fun v => grad ln2c ln10c v e) V)) with
+                | Some row => JGeneral [row]
+                | None => JError
+                end).
+  { rewrite map_map.
+    rewrite (map_ext (fun v => build V (grad ln2c ln10c v e))
+                     (fun v => build V (gradient ln2c ln10c v 400 e)))
+      by (intros v; rewrite gradient_eq_grad; reflexivity).
+    destruct e; try reflexivity; discriminate Hnv. }
+  assert (Hw : Forall (fun t => wf t = true) (map (fun v => grad ln2c ln10c v e) V)).
+  { apply Forall_map_intro. exact Hgw. }
+  destruct (all_some_map_total (build V) (map (fun v => grad ln2c ln10c v e) V)) as [row Hrow].
+  { apply Forall_map_intro. intros v Hv. apply build_total_gen. apply Hgv. exact Hv. }
+  exists row. rewrite Hcg, Hrow.
+  split; [reflexivity|].
+  simpl. rewrite (build_row_ev V x penv _ row HV Hw Hrow). rewrite map_map.
+  split; [|reflexivity].
+  do 2 f_equal. apply map_ext. intros v. rewrite gradient_eq_grad. reflexivity.
+Qed.
+
+(* ------------------------------------------------------------------ *)
+(** * 5. non-vacuity *)
+
+Open Scope string_scope.
+
+(* (a) a linear row, variables permuted and a spare one: constant path *)
+Example ex_const_path : forall ln2c ln10c,
+    compile_jacobian ln2c ln10c
+                     [LinComb [1%Q; 2%Q] (KVar 1) [Var "a"; Var "b"]] ["b"; "a"; "z"] =
+    JConst [[2%Q; 1%Q; 0%Q]].
+Proof. intros ln2c ln10c. vm_compute. reflexivity. Qed.
+
+(* (b) a vector dotted with itself: uniformly scaled path *)
+Example ex_scaled_path : forall ln2c ln10c,
+    compile_jacobian ln2c ln10c
+                     [Dot (KVar 1) [Var "a"; Var "b"] (KVar 1) [Var "a"; Var "b"]] ["a"; "b"] =
+    JScaled 2%Q.
+Proof. intros ln2c ln10c. vm_compute. reflexivity. Qed.
+
+(* (c) product of two overlapping slices x[0:2] . x[1:3] of one vector *)
+Definition ex_overlap : expr :=
+  Dot (KVar 1) [Var "x0"; Var "x1"] (KVar 2) [Var "x1"; Var "x2"].
+
+Example ex_overlap_row : forall ln2c ln10c,
+    compute_jacobian ln2c ln10c [ex_overlap] ["x0"; "x1"; "x2"] =
+    [[Var "x1"; Bin Add (Var "x0") (Var "x2"); Var "x1"]].
+Proof. intros ln2c ln10c. vm_compute. reflexivity. Qed.
+
+Example ex_overlap_general : forall ln2c ln10c,
+    compile_jacobian ln2c ln10c [ex_overlap] ["x0"; "x1"; "x2"] =
+    JGeneral [[CIdx 1; CBin Add (CIdx 0) (CIdx 2); CIdx 1]].
+Proof. intros ln2c ln10c. vm_compute. reflexivity. Qed.
+
+Example ex_overlap_run : forall ln2c ln10c (a b c : R) penv pow_tbl un_tbl,
+    run_jac [a; b; c] penv pow_tbl un_tbl
+            (compile_jacobian ln2c ln10c [ex_overlap] ["x0"; "x1"; "x2"]) =
+    Some [[b; (a + c)%R; b]].
+Proof.
+  intros ln2c ln10c a b c penv pow_tbl un_tbl. rewrite ex_overlap_general. reflexivity.
+Qed.
+
+(* the general-path tree for the same row: same values, different association *)
+Example ex_overlap_grad : forall ln2c ln10c,
+    map (fun v => grad ln2c ln10c v ex_overlap) ["x0"; "x1"; "x2"] =
+    [Var "x1"; Bin Add (Var "x0") (Var "x2"); Var "x1"].
+Proof. intros ln2c ln10c. vm_compute. reflexivity. Qed.
+
+(* the hypotheses of compile_jacobian_sound are satisfiable on (c) *)
+Example ex_overlap_sound : forall ln2c ln10c (a b c : R) penv pow_tbl un_tbl,
+    exists M,
+      run_jac [a; b; c] penv pow_tbl un_tbl
+              (compile_jacobian ln2c ln10c [ex_overlap] ["x0"; "x1"; "x2"]) = Some M /\
+      M = map (fun e => map (fun v => evalR (env_of ["x0"; "x1"; "x2"] [a; b; c]) penv
+                                            (grad ln2c ln10c v e)) ["x0"; "x1"; "x2"])
+              [ex_overlap].
+Proof.
+  intros ln2c ln10c a b c penv pow_tbl un_tbl.
+  apply compile_jacobian_sound.
+  - repeat constructor.
+  - repeat constructor.
+  - repeat constructor; simpl; intuition discriminate.
+  - reflexivity.
+  - intros e [He|[]]. subst e. intros y Hy. simpl in Hy. simpl. tauto.
+  - intros e v [He|[]] Hv. subst e.
+    simpl in Hv. destruct Hv as [Hv|[Hv|[Hv|[]]]]; subst v; reflexivity.
+  - intros e v [He|[]] Hv. subst e.
+    simpl in Hv. destruct Hv as [Hv|[Hv|[Hv|[]]]]; subst v;
+      intros y Hy; vm_compute in Hy; simpl; tauto.
+  - reflexivity.
+Qed.
+
+(* ------------------------------------------------------------------ *)
+(** * Counter-examples: the hypotheses that cannot be dropped *)
+
+(* [wf] (distinct names in a VectorVariable): with a repeated name the row takes
+   the last coefficient, the gradient rule the first *)
+Example wf_needed_lincomb :
+  let e := LinComb [1%Q; 2%Q] (KVar 1) [Var "a"; Var "a"] in
+  wf e = false /\
+  jac_row ["a"] e = Some [Const 2%Q] /\
+  (forall ln2c ln10c, grad ln2c ln10c "a" e = Const 1%Q) /\
+  (forall ln2c ln10c rho penv,
+      map (evalR rho penv) [Const 2%Q] <>
+      map (fun v => evalR rho penv (grad ln2c ln10c v e)) ["a"]).
+Proof.
+  cbv zeta. split; [reflexivity|]. split; [vm_compute; reflexivity|].
+  split; [intros; reflexivity|].
+  intros ln2c ln10c rho penv H. simpl in H. inversion H as [H1].
+  rewrite Q2R_2_, Q2R_1_ in H1. lra.
+Qed.
+
+(* [NoDup V]: the scaled path multiplies x positionally, the general path
+   reads the LAST index of a repeated name *)
+Example nodup_needed_scaled : forall ln2c ln10c penv pow_tbl un_tbl,
+    let es := [Dot (KVar 1) [Var "a"] (KVar 1) [Var "a"]] in
+    let V := ["a"; "a"] in
+    compile_jacobian ln2c ln10c es V = JScaled 2%Q /\
+    general_path V (compute_jacobian ln2c ln10c es V) =
+    Some [[CBin Mul (CConst 2%Q) (CIdx 1); CBin Mul (CConst 2%Q) (CIdx 1)]] /\
+    run_jac [1%R; 5%R] penv pow_tbl un_tbl (JScaled 2%Q) <>
+    run_jac [1%R; 5%R] penv pow_tbl un_tbl
+            (JGeneral [[CBin Mul (CConst 2%Q) (CIdx 1); CBin Mul (CConst 2%Q) (CIdx 1)]]).
+Proof.
+  intros ln2c ln10c penv pow_tbl un_tbl. cbv zeta.
+  split; [vm_compute; reflexivity|]. split; [vm_compute; reflexivity|].
+  intros H. simpl in H. unfold xat in H. simpl in H.
+  injection H as H1. rewrite Q2R_2_ in H1. lra.
+Qed.
+
+Transparent jac_row.
+
+Print Assumptions jac_row_sound.
+Print Assumptions jac_row_sound_gen.
+Print Assumptions compute_jacobian_sound.
+Print Assumptions compile_jacobian_sound.
+Print Assumptions compile_paths_agree.
+Print Assumptions compile_gradient_sound.
+Print Assumptions gradient_eq_grad.
